@@ -5,7 +5,7 @@ package mocker
 // generated per run by checks/C07.py (zz_verif_c07_types_test.go) and registered in c07Types.
 //
 // line:  c07.hist T:<tid>:<name>/<sig>,... V:<tid>:<init> ... <op> <op> ...
-// ops :  ap:b:v:name:k  rt:b:v:name:k  wn:b:v:name:k:a  rs:b  dr:b  gc  ca:v  wd:v  od:tid  mx
+// ops :  ap:b:v:name:k  rt:b:v:name:k  wn:b:v:name:k:a  cn:b:v:name  rs:b  dr:b  gc  ca:v  wd:v  od:tid  mx
 //        kind prefix `h`: through the CachedInterfaceMocker handle kept from the first b.Interface(&v) of the history;
 //        kind suffix `x`: with a callback whose signature does not fit the method (must be rejected).
 // one observation per op, joined by ';'.
@@ -375,6 +375,17 @@ func c07run(toks []string) string {
 				}
 			}
 			obs = append(obs, c07mock(h, v, kind, fits, f[3], k, a))
+		case "cn": // cancel through ONE method's handle, obtained by a fresh lookup
+			b, _ := strconv.Atoi(f[1])
+			vi, _ := strconv.Atoi(f[2])
+			if vi >= len(vars) || dropped[b] {
+				return "bad-op"
+			}
+			if builders[b] == nil {
+				builders[b] = Create()
+			}
+			bb, v, name := builders[b], vars[vi], f[3]
+			obs = append(obs, c07catch(func() string { bb.Interface(v.t.ptr(v.slot)).Method(name).Cancel(); return "ok" }))
 		case "rs":
 			b, _ := strconv.Atoi(f[1])
 			if dropped[b] {
